@@ -17,3 +17,7 @@ Definition plasma_check_run (i : plasma_in) : plasma_out :=
   end.
 Definition plasma_check_eqb (a b : plasma_out) : bool :=
   let '(x1, y1, z1) := a in let '(x2, y2, z2) := b in (x1 =? x2) && (y1 =? y2) && (z1 =? z2).
+
+(* in: (is_receive, to_contract, found, key, data length); out: base plasma, -1 for the error case *)
+Definition base_plasma_run (i : bool * bool * bool * Z * Z) : Z :=
+  let '(r, c, f, k, l) := i in match base_plasma r c f k l with BOk b => b | BErr => -1 end.
